@@ -170,8 +170,90 @@ def gen_heap(repo):
         raise TranslateError('Heap.free: the lock-taken branch is no longer '
                              '`self._pending_free_blocks.append(block)`')
 
+    # ---- which statements of malloc / free run under `self._lock` (the critical sections of the
+    #      interleaving model, Model/HeapConc.v); every statement must be a known one
+    def classify(fn, st):
+        src = ast.unparse(st)
+        table = {
+            'self._free_pending_blocks()': 'drain',
+            ast.unparse(size_as): 'size',
+            'arena, start, stop = self._malloc(size)': 'search',
+            ast.unparse(ns): 'new_stop',
+            'block = (arena, start, new_stop)': 'block',
+            'self._allocated_blocks.add(block)': 'add',
+            'return block': 'return',
+            'self._allocated_blocks.remove(block)': 'remove',
+            'self._free(block)': 'free',
+            'self._pending_free_blocks.append(block)': 'append',
+            'self._lock.release()': 'release',
+            'assert os.getpid() == self._lastpid': 'assertpid',
+        }
+        if st is asr:
+            return 'assert'
+        if st is split:
+            return 'split'
+        if st is acq:
+            return 'trylock'
+        if isinstance(st, ast.If) and ast.unparse(st.test) == 'os.getpid() != self._lastpid' \
+                and [ast.unparse(x) for x in st.body] == ['self.__init__()'] and not st.orelse:
+            return 'pidcheck'
+        if src in table:
+            return table[src]
+        raise TranslateError('Heap.%s: unexpected statement `%s`' % (fn, src.splitlines()[0]))
+
+    m_out, m_in = [], []
+    withs = [s for s in m.body if isinstance(s, ast.With)]
+    if len(withs) != 1 or m.body[-1] is not withs[0]:
+        raise TranslateError('Heap.malloc: expected exactly one `with` statement, as the last statement')
+    w = withs[0]
+    if len(w.items) != 1 or ast.unparse(w.items[0].context_expr) != 'self._lock' or w.items[0].optional_vars:
+        raise TranslateError('Heap.malloc: the `with` statement is no longer `with self._lock:`')
+    for st in m.body[:-1]:
+        if isinstance(st, ast.Expr) and isinstance(st.value, ast.Constant):
+            continue        # docstring
+        m_out.append(classify('malloc', st))
+    for st in w.body:
+        m_in.append(classify('malloc', st))
+    f_out, f_fail, f_in, f_fin = [], [], [], []
+    fbody = [st for st in fr.body if not (isinstance(st, ast.Expr) and isinstance(st.value, ast.Constant))]
+    if not fbody or fbody[-1] is not acq:
+        raise TranslateError('Heap.free: the try-lock `if` is not the last statement')
+    for st in fbody:
+        f_out.append(classify('free', st))
+    f_fail = [classify('free', st) for st in acq.body]
+    if len(acq.orelse) != 1 or not isinstance(acq.orelse[0], ast.Try):
+        raise TranslateError('Heap.free: the lock-acquired branch is not a single try/finally')
+    tr_ = acq.orelse[0]
+    if tr_.handlers or tr_.orelse:
+        raise TranslateError('Heap.free: the try statement has handlers / else')
+    f_in = [classify('free', st) for st in tr_.body]
+    f_fin = [classify('free', st) for st in tr_.finalbody]
+    dr = pykernel.find_func(tree, 'Heap._free_pending_blocks')
+    drain_src = '\n'.join(ast.unparse(st) for st in dr.body
+                          if not (isinstance(st, ast.Expr) and isinstance(st.value, ast.Constant)))
+    drain_want = ('while 1:\n    try:\n        block = self._pending_free_blocks.pop()\n'
+                  '    except IndexError:\n        break\n'
+                  '    self._allocated_blocks.remove(block)\n    self._free(block)')
+    if drain_src != drain_want:
+        raise TranslateError('Heap._free_pending_blocks is no longer the pop/remove/_free loop:\n' + drain_src)
+
+    def cstrs(xs):
+        return '[' + '; '.join('"%s"%%string' % x for x in xs) + ']'
+    regions = '''
+(* which statements of Heap.malloc / Heap.free are executed outside and inside `with self._lock` /
+   after a successful try-lock (statement by statement, in source order) *)
+Definition malloc_outside : list string := %s.
+Definition malloc_locked : list string := %s.
+Definition free_outside : list string := %s.
+Definition free_lock_taken : list string := %s.
+Definition free_locked : list string := %s.
+Definition free_finally : list string := %s.
+(* Heap._free_pending_blocks is `while 1: try: pop() except IndexError: break; remove; _free` *)
+Definition drain_is_pop_loop : bool := true.
+''' % tuple(cstrs(x) for x in (m_out, m_in, f_out, f_fail, f_in, f_fin))
+
     return '''(* GENERATED by translate/kernels/heap.py (G_heap) from billiard/heap.py -- do not edit *)
-From Coq Require Import ZArith List Bool.
+From Coq Require Import ZArith List Bool String.
 From BV Require Import Lib.PyVal Gen.K_heap.
 Import ListNotations.
 Open Scope Z_scope.
@@ -204,7 +286,7 @@ Definition free_trylock : bool := %(trylock)s.
            next_size=next_size, bl=known[search],
            src_assert=ast.unparse(asr), src_size=ast.unparse(size_as),
            src_new_stop=ast.unparse(ns), src_split=ast.unparse(split.test),
-           src_length=ast.unparse(la), src_aug=ast.unparse(aug))
+           src_length=ast.unparse(la), src_aug=ast.unparse(aug)) + regions
 
 
 EXTRA_GENERATORS = {'G_heap': gen_heap}
